@@ -252,6 +252,57 @@ func arrKinds() []arrKind {
 			func() (*array.Array, error) { return array.NewEmpty(struct6{}) },
 			func(v uint64) interface{} { return struct6{A: uint16(v), B: int32(v >> 16)} }})
 	}
+	// unnamed element types (Type.Name() is "" for all of them): an anonymous
+	// 12-byte struct, an anonymous 6-byte struct with another layout, [4]byte and
+	// [16]byte; the arrays of all kinds live in one process at the same time
+	{
+		type a12 = struct {
+			A uint64
+			B uint32
+		}
+		conv := func(vals []uint64) []a12 {
+			r := make([]a12, len(vals))
+			for i, v := range vals {
+				r[i] = a12{A: v, B: uint32(v >> 7)}
+			}
+			return r
+		}
+		ks = append(ks, arrKind{"anon12", 12, nil, nil,
+			func(idx []int32, vals []uint64) (*array.Array, error) { return array.New(idx, conv(vals)) },
+			func() (*array.Array, error) { return array.NewEmpty(a12{}) },
+			func(v uint64) interface{} { return a12{A: v, B: uint32(v >> 7)} }})
+	}
+	{
+		type a6 = struct {
+			P int32
+			Q uint16
+		}
+		conv := func(vals []uint64) []a6 {
+			r := make([]a6, len(vals))
+			for i, v := range vals {
+				r[i] = a6{P: int32(v), Q: uint16(v >> 32)}
+			}
+			return r
+		}
+		ks = append(ks, arrKind{"anon6", 6, nil, nil,
+			func(idx []int32, vals []uint64) (*array.Array, error) { return array.New(idx, conv(vals)) },
+			func() (*array.Array, error) { return array.NewEmpty(a6{}) },
+			func(v uint64) interface{} { return a6{P: int32(v), Q: uint16(v >> 32)} }})
+	}
+	{
+		mk4 := func(v uint64) [4]byte { return [4]byte{byte(v), byte(v >> 8), byte(v >> 16), byte(v >> 24)} }
+		conv := func(vals []uint64) [][4]byte {
+			r := make([][4]byte, len(vals))
+			for i, v := range vals {
+				r[i] = mk4(v)
+			}
+			return r
+		}
+		ks = append(ks, arrKind{"arr4", 4, nil, nil,
+			func(idx []int32, vals []uint64) (*array.Array, error) { return array.New(idx, conv(vals)) },
+			func() (*array.Array, error) { return array.NewEmpty([4]byte{}) },
+			func(v uint64) interface{} { return mk4(v) }})
+	}
 	return ks
 }
 
@@ -302,6 +353,14 @@ func checkArr(w *h.Worker, k arrKind, a *arr, g *array.Array, ref map[int32]uint
 			}
 			if k.name == "struct6" {
 				wantB = refLE(want, 6) // uint16 then int32, little endian, packed
+			}
+			switch k.name {
+			case "anon12":
+				wantB = append(refLE(want, 8), refLE(uint64(uint32(want>>7)), 4)...)
+			case "anon6":
+				wantB = append(refLE(uint64(uint32(want)), 4), refLE(uint64(uint16(want>>32)), 2)...)
+			case "arr4":
+				wantB = refLE(want, 4)
 			}
 			if ok2 != present || (present && !bytes.Equal(bs, wantB)) {
 				return fmt.Sprintf("%s: generic GetBytes(%d) = (%x,%v), want (%x,%v)", stage, i, bs, ok2, wantB, present)
@@ -538,7 +597,7 @@ func c16Value(index int32, pattern int, width int) uint64 {
 
 func runC16(r *h.Run) {
 	thorough := r.Tier == "thorough"
-	r.Rule = "every subset of the 16-position index universe {0,1,2,31,62,63,64,65,127,128,129,255,256,300,511,512} (65536 sets: dense, sparse, empty 64-bit words, single, empty) and of a 14-position universe reaching 2^20-1; element types U16 U32 U64 I16 I32 I64, a fixed-size 8-byte struct and a 6-byte struct (encoded size not a power of two); values f(index,pattern) over the lane alphabet (3 patterns in thorough, 1 in quick), plus all 2^16 values in one-element arrays of the 16-bit types; probes: every index of the bitmap span (second universe: every universe index +-1 and every touched word boundary); typed Get, generic Array.Get and Base.GetBytes against map[int32]T, on the fresh arrays and after proto.Marshal/Unmarshal of both the typed and the generic array into both the typed type and array.NewEmpty(zero); invalid: every index sequence of length <= 4 over a 6-position universe and element slices longer or shorter by 1..3 => ErrIndexNotAscending / ErrIndexLen and a nil array. A state is a distinct (kind, index set, pattern); non-trivial = at least 2 elements"
+	r.Rule = "every subset of the 16-position index universe {0,1,2,31,62,63,64,65,127,128,129,255,256,300,511,512} (65536 sets: dense, sparse, empty 64-bit words, single, empty) and of a 14-position universe reaching 2^20-1; element types U16 U32 U64 I16 I32 I64, a fixed-size 8-byte struct, a 6-byte struct (encoded size not a power of two), and three unnamed element types (anonymous 12- and 6-byte structs, [4]byte) whose arrays coexist in the process; values f(index,pattern) over the lane alphabet (3 patterns in thorough, 1 in quick), plus all 2^16 values in one-element arrays of the 16-bit types; probes: every index of the bitmap span (second universe: every universe index +-1 and every touched word boundary); typed Get, generic Array.Get and Base.GetBytes against map[int32]T, on the fresh arrays and after proto.Marshal/Unmarshal of both the typed and the generic array into both the typed type and array.NewEmpty(zero); invalid: every index sequence of length <= 4 over a 6-position universe and element slices longer or shorter by 1..3 => ErrIndexNotAscending / ErrIndexLen and a nil array. A state is a distinct (kind, index set, pattern); non-trivial = at least 2 elements"
 	r.Assumptions = []string{"(zero,false) is claimed within the bitmap span only; probing beyond the span is outside the statement"}
 	kinds := arrKinds()
 	patterns := 1
